@@ -92,3 +92,13 @@ func verifReflClosure(src, root string) map[string]any {
 	}
 	return map[string]any{"recorded": recorded, "root": verifTypeDump(obj.Type(), pkg), "underlying": decls}
 }
+
+// verifCheckSource type-checks one file as the package with the given import path.
+func verifCheckSource(src, path string) (*types.Package, error) {
+	fset := token.NewFileSet()
+	f, err := parser.ParseFile(fset, "p.go", src, 0)
+	if err != nil {
+		return nil, err
+	}
+	return (&types.Config{}).Check(path, fset, []*ast.File{f}, nil)
+}
